@@ -38,10 +38,12 @@ theorem GInv.wakeWaiters {w : World} (hp : GInv ex fr w) (p : Pid) (sig : Int) :
 
 /-! ### what dropping resources does to the waiting lists and the grants -/
 
-/-- lists only shrink; a new pending event is a grant for a key that was queued, or is none of `GInv`'s business -/
+/-- lists only shrink; a new pending event is a grant (or, from the condition signal of an observing condition, a condition
+    wake-up) for a key that was queued, or is none of `GInv`'s business -/
 structure GrantFoot (w w' : World) : Prop where
   q : ∀ g k, queued w' g k → queued w g k
-  e : ∀ e ∈ w'.ev.pending, e ∈ w.ev.pending ∨ (e.item.a = aRes ∧ e.item.c = 0 ∧ ∃ g', queued w g' e.item.b)
+  e : ∀ e ∈ w'.ev.pending, e ∈ w.ev.pending ∨
+    ((e.item.a = aRes ∨ e.item.a = aCond) ∧ e.item.c = 0 ∧ ∃ g', queued w g' e.item.b)
   aw : ∀ x, (w'.proc x).awaits = (w.proc x).awaits
 
 theorem GrantFoot.refl (w : World) : GrantFoot w w := ⟨fun _ _ h => h, fun _ h => Or.inl h, fun _ => rfl⟩
@@ -75,7 +77,7 @@ theorem Clean.ofGrantFoot {w w' : World} {p : Pid} (hc : Clean w p) (hf : GrantF
   · intro e he hea hec hb
     rcases hf.e e he with h | ⟨h, _, _⟩
     · exact hc.nt e h hea hec hb
-    · rw [hea] at h; exact absurd h (by decide)
+    · rw [hea] at h; rcases h with h | h <;> exact absurd h (by decide)
 
 theorem recordPool_frame (w : World) (pl : Nat) :
     (recordPool w pl).guards = w.guards ∧ (recordPool w pl).ev = w.ev ∧ (recordPool w pl).procs = w.procs := by
